@@ -2129,6 +2129,15 @@ func (p *produceRequest) tryAddBatch(produceVersion int32, recBuf *recBuf, batch
 		newPartitionsLen := uvarlen(len(partitions) + 1)
 		batchWireLength += (newPartitionsLen - lastPartitionsLen)
 	}
+	// Flexible versions end every partition and every topic with a
+	// tagged-fields byte. If we do not know the version yet, we count
+	// them as well: that can only overestimate.
+	if flexible || produceVersion < 0 {
+		batchWireLength++ // partition tags
+		if _, exists := p.batches.bs[recBuf.topic]; !exists {
+			batchWireLength++ // topic tags
+		}
+	}
 	// If we are flexible but do not know it yet, adding partitions may
 	// increase our length prefix. Since we are pessimistically assuming
 	// non-flexible, we have 200mil partitions to add before we have to
